@@ -56,17 +56,18 @@ func init() {
 }
 
 // SetParseErrorLanguage 设置解析错误消息的语言
+// Deprecated: 每个 VM 使用自己的 Config.ParseErrorLanguage，此函数不再影响 Parse 的输出
 func SetParseErrorLanguage(lang int) {
 	parseErrorLanguage = lang
 }
 
 // formatFriendlyError 生成友好的错误消息
-func formatFriendlyError(pos position, input []byte, expected []string) error {
+func formatFriendlyError(pos position, input []byte, expected []string, lang int) error {
 	if verifOn {
 		verifYield(verifSiteFormatErr)
 	}
 	if len(input) == 0 {
-		return fmtErr(pos, input, errMsgs["empty"], 0)
+		return fmtErr(pos, input, errMsgs["empty"], 0, lang)
 	}
 
 	var char rune
@@ -118,15 +119,15 @@ func formatFriendlyError(pos position, input []byte, expected []string) error {
 		msg = errMsgs["syntax"]
 	}
 
-	return fmtErr(pos, input, msg, fmtChar)
+	return fmtErr(pos, input, msg, fmtChar, lang)
 }
 
 // fmtErr 格式化错误输出
-func fmtErr(pos position, input []byte, msg bilingualMsg, char rune) error {
+func fmtErr(pos position, input []byte, msg bilingualMsg, char rune, lang int) error {
 	var sb strings.Builder
 
 	// 标题
-	switch parseErrorLanguage {
+	switch lang {
 	case ParseErrorLanguageChinese:
 		sb.WriteString("语法错误\n")
 	case ParseErrorLanguageEnglish:
@@ -159,7 +160,7 @@ func fmtErr(pos position, input []byte, msg bilingualMsg, char rune) error {
 	}
 
 	// 位置和消息
-	switch parseErrorLanguage {
+	switch lang {
 	case ParseErrorLanguageChinese:
 		sb.WriteString(fmt.Sprintf("  位置 %d:%d - %s", pos.line, pos.col, cn))
 	case ParseErrorLanguageEnglish:
